@@ -650,8 +650,12 @@ func (n *VerifOutsideNode) Digest() VerifOutsideDigest {
 		var rep, lrn []string
 		for _, o := range owners {
 			c := (*cm)[o]
-			rep = append(rep, fmt.Sprintf("%s:%v/%v", o, c.Reported, c.Relay))
-			lrn = append(lrn, fmt.Sprintf("%s:%v", o, c.Learned))
+			if len(c.Reported) > 0 || len(c.Relay) > 0 {
+				rep = append(rep, fmt.Sprintf("%s:%v/%v", o, c.Reported, c.Relay))
+			}
+			if len(c.Learned) > 0 {
+				lrn = append(lrn, fmt.Sprintf("%s:%v", o, c.Learned))
+			}
 		}
 		rl.RLock()
 		rel := make([]string, len(rl.relays))
